@@ -6,14 +6,30 @@
 #include "terminalpp/detail/overloaded.hpp"
 
 #include <algorithm>
+#include <limits>
 #include <utility>
 #include <cassert>
+#include <cstdlib>
 
 using namespace terminalpp::literals;  // NOLINT
 
 namespace terminalpp::detail {
 
 namespace {
+
+// Converts a numeric control sequence argument to an integer.  An argument
+// whose value does not fit is clamped to the largest representable value
+// instead of wrapping around into the range of meaningful values.
+int argument_to_integer(byte_storage const &argument)
+{
+    auto const value =
+        std::strtoll(reinterpret_cast<char const *>(argument.c_str()), nullptr, 10);
+
+    return static_cast<int>(std::clamp<long long>(
+        value,
+        std::numeric_limits<int>::min(),
+        std::numeric_limits<int>::max()));
+}
 
 vk_modifier convert_modifier_argument(byte_storage const &modifier)
 {
@@ -57,7 +73,7 @@ vk_modifier convert_modifier_argument(byte_storage const &modifier)
   // clang-format on
     };
 
-    auto const value = atoi(reinterpret_cast<char const *>(modifier.c_str()));
+    auto const value = argument_to_integer(modifier);
     if (auto const *mapping = std::ranges::find(
             modifier_mappings,
             value,
@@ -101,8 +117,8 @@ token convert_control_sequence(control_sequence const &seq)
         auto const repeat_count_arg =
             seq.arguments.empty() ? "1"_tb : seq.arguments[0];
 
-        auto const repeat_count = std::max(
-            atoi(reinterpret_cast<char const *>(repeat_count_arg.c_str())), 1);
+        auto const repeat_count =
+            std::max(argument_to_integer(repeat_count_arg), 1);
 
         vk_modifier const modifier =
             (seq.arguments.size() > 1
@@ -190,8 +206,7 @@ token convert_keypad_sequence(control_sequence const &seq)
         return seq;
     }
 
-    auto const argument =
-        atoi(reinterpret_cast<char const *>(seq.arguments[0].c_str()));
+    auto const argument = argument_to_integer(seq.arguments[0]);
 
     if (auto const *keypad_command = std::ranges::find(
             keypad_commands,
